@@ -75,7 +75,7 @@ theorem new_lowers_each_value_once (c : Nat) (k : PKind) (items : List Nat) :
 
 /-- the runtime's decoding of a return code is the inverse of the specification's encoding
 `base | count << 4` (COMPLETED 0, DROPPED 1, CANCELLED 2), and BLOCKED is BLOCKED -/
-theorem decode_matches_spec_encoding (base k : Nat) (hb : base < 3) (hk : k < 268435455) :
+theorem decode_matches_spec_encoding (base k : Nat) (hb : base < 3) (hk : k ≤ 268435455) :
     RetCode.decode (Host.packCode base k) =
       some (if base = 0 then .completed k else if base = 1 then .dropped k else .cancelled k) ∧
     RetCode.decode Host.BLOCKED = some .blocked :=
@@ -88,7 +88,7 @@ it hands back has advanced by exactly `k` (the values the host took are exactly 
 window, the rest is untouched and still owned by the writer), and the writer is marked done exactly
 for DROPPED with `k > 0`.  A count beyond what was offered makes the runtime panic instead of
 corrupting the buffer. -/
-theorem counts_are_hosts_write (p : WSt) (base k : Nat) (hb : base < 3) (hk2 : k < 268435455)
+theorem counts_are_hosts_write (p : WSt) (base k : Nat) (hb : base < 3) (hk2 : k ≤ 268435455)
     (hc : p.buf.cursor ≤ p.buf.items.length) :
     (k ≤ p.buf.remaining →
       streamWriteUpdate p (Host.packCode base k) =
@@ -103,7 +103,7 @@ every code `base|k` with `k` within the spare capacity the read yields `Complete
 `Cancelled` only for `k = 0`), appends exactly the first `k` values the host wrote — each lifted exactly
 once, in order, when the payload needs lifting —, releases its slab, and marks the reader done exactly
 for DROPPED with `k > 0`. -/
-theorem counts_are_hosts_read (p : RSt) (base k : Nat) (hb : base < 3) (hk : k ≤ p.spare) (hk2 : k < 268435455) :
+theorem counts_are_hosts_read (p : RSt) (base k : Nat) (hb : base < 3) (hk : k ≤ p.spare) (hk2 : k ≤ 268435455) :
     streamReadUpdate p (Host.packCode base k) =
       .ok (.inl (sresOf base k,
         { p with buf := p.buf ++ p.mem.take k, spare := p.spare - k, slab := false, mem := [],
@@ -119,7 +119,7 @@ one `await` point of `write_all` / `write_one` whose write the host answers with
 `write_buf` of the SAME buffer whose `remaining` is smaller by exactly `k`.  `remaining` is a strictly
 decreasing measure over consecutive such steps: at most `remaining` of them, whatever the `k`s. -/
 theorem write_all_terminates_when_host_progresses (g : GChan) (e : Env) (one first : Bool) (st : WSt) (k : Nat)
-    (hd : st.wr.done = false) (hk1 : 1 ≤ k) (hk : k ≤ st.buf.remaining) (hk2 : k < 268435455)
+    (hd : st.wr.done = false) (hk1 : 1 ≤ k) (hk : k ≤ st.buf.remaining) (hk2 : k ≤ 268435455)
     (hc : st.buf.cursor ≤ st.buf.items.length) :
     ∃ g' evs, g.pollAll e one first (WOp.new st) (Host.packCode Host.COMPLETED k) = .ok (g', e) evs ∧
       (if st.buf.remaining = k then g'.running = false ∧ g'.act = .idle
@@ -236,9 +236,9 @@ count sets it (write and read).  (2) Once it is set, starting a write or a read 
 built-in at all (the operation answers DROPPED by itself), so the host cannot trap on it.  The gap is
 exactly the code DROPPED|0. -/
 theorem dropped_sets_done_partial :
-    (∀ (p : WSt) (k : Nat), 0 < k → k ≤ p.buf.remaining → k < 268435455 → p.buf.cursor ≤ p.buf.items.length →
+    (∀ (p : WSt) (k : Nat), 0 < k → k ≤ p.buf.remaining → k ≤ 268435455 → p.buf.cursor ≤ p.buf.items.length →
       ∃ r st evs, streamWriteUpdate p (Host.packCode Host.DROPPED k) = .ok (.inl (r, st)) evs ∧ st.wr.done = true) ∧
-    (∀ (p : RSt) (k : Nat), 0 < k → k ≤ p.spare → k < 268435455 →
+    (∀ (p : RSt) (k : Nat), 0 < k → k ≤ p.spare → k ≤ 268435455 →
       ∃ r st evs, streamReadUpdate p (Host.packCode Host.DROPPED k) = .ok (.inl (r, st)) evs ∧ st.rd.done = true) ∧
     (∀ (s : WSt) (ans : Nat), s.wr.done = true → (streamWriteOps.start s ans).1 = [] ∧ (streamWriteOps.start s ans).2.1 = Limits.dropped) ∧
     (∀ (s : RSt) (ans : Nat), s.rd.done = true → (streamReadOps.start s ans).1 = [] ∧ (streamReadOps.start s ans).2.1 = Limits.dropped) ∧
